@@ -55,11 +55,22 @@ fn bump_ext(e: &mut FE, coeff: usize) {
     a[coeff] = bump(a[coeff]);
     *e = <FE as FieldExtension<D>>::from_basefield_array(a);
 }
-/// change field element `e` (0..4) of a digest: flip the lowest bit of its first byte
+/// number of perturbation positions of a digest: the 4 field elements of a Poseidon digest, EVERY byte of a
+/// byte digest (Keccak-25: 3 full 7-byte chunks and the last 4 bytes all reach the transcript)
+fn hash_atoms<H: GenericHashOut<F>>(h: &H) -> usize {
+    let n = h.to_bytes().len();
+    if n == 32 { 4 } else { n }
+}
+/// change position `e` of a digest (flip one bit; which bit of a field element varies with e and the seed)
 fn flip_hash<H: GenericHashOut<F>>(h: &H, e: usize) -> H {
     let mut b = h.to_bytes();
-    let stride = if b.len() == 32 { 8 } else { 7 };
-    b[e * stride] ^= 1;
+    if b.len() == 32 {
+        // low 4 bytes of the element only: the result stays a canonical field element
+        let byte = (e + seed() as usize) % 4;
+        b[e * 8 + byte] ^= 1 << ((e * 3 + seed() as usize) % 8);
+    } else {
+        b[e] ^= 1 << ((e + seed() as usize) % 8);
+    }
     H::from_bytes(&b)
 }
 fn strat_name(s: &FriReductionStrategy) -> &'static str {
@@ -180,37 +191,40 @@ fn plonk_classes<C: GenericConfig<D, F = F>>(ti: &Ti<C>) -> Vec<(String, usize)>
         ("fri.reduction_strategy".into(), strat_len(&fp.config.reduction_strategy)),
         ("fri.num_query_rounds".into(), 1), ("fri.hiding".into(), 1), ("fri.degree_bits".into(), 1),
         ("fri.reduction_arity_bits".into(), fp.reduction_arity_bits.len()),
-        ("circuit_digest".into(), 4), ("public_inputs_hash".into(), 4),
+        ("circuit_digest".into(), hash_atoms(&ti.digest)), ("public_inputs_hash".into(), 4),
         ("public_input".into(), ti.proof.public_inputs.len()),
-        ("wires_cap".into(), ti.proof.proof.wires_cap.0.len() * 4),
-        ("plonk_zs_partial_products_cap".into(), ti.proof.proof.plonk_zs_partial_products_cap.0.len() * 4),
-        ("quotient_polys_cap".into(), ti.proof.proof.quotient_polys_cap.0.len() * 4),
+        ("wires_cap".into(), cap_atoms(&ti.proof.proof.wires_cap)),
+        ("plonk_zs_partial_products_cap".into(), cap_atoms(&ti.proof.proof.plonk_zs_partial_products_cap)),
+        ("quotient_polys_cap".into(), cap_atoms(&ti.proof.proof.quotient_polys_cap)),
     ];
     let mut o = ti.proof.proof.openings.clone();
     for n in PLONK_OPENINGS {
         v.push((format!("openings.{n}"), opening_vec(&mut o, n).unwrap().len() * D));
     }
     for (l, c) in ti.proof.proof.opening_proof.commit_phase_merkle_caps.iter().enumerate() {
-        v.push((format!("commit_cap.{}", l + 1), c.0.len() * 4));
+        v.push((format!("commit_cap.{}", l + 1), cap_atoms(c)));
     }
     v.push(("final_poly".into(), ti.proof.proof.opening_proof.final_poly.coeffs.len() * D));
     v.push(("pow_witness".into(), 1));
     v
 }
 
+fn cap_atoms<H: Hasher<F>>(cap: &MerkleCap<F, H>) -> usize {
+    cap.0.first().map_or(0, |h| hash_atoms(h)) * cap.0.len()
+}
 fn perturb_cap<H: Hasher<F>>(cap: &mut MerkleCap<F, H>, i: usize) {
-    cap.0[i / 4] = flip_hash(&cap.0[i / 4], i % 4);
+    let n = hash_atoms(&cap.0[0]);
+    cap.0[i / n] = flip_hash(&cap.0[i / n], i % n);
 }
 
 fn plonk_perturb<C: GenericConfig<D, F = F>>(ti: &mut Ti<C>, class: &str, i: usize) -> bool {
     let p = &mut ti.proof.proof;
     match class {
         "fri.rate_bits" | "fri.cap_height" | "fri.proof_of_work_bits" | "fri.num_query_rounds" | "fri.reduction_strategy" => {
-            // one logical parameter, stored twice (FriParams.config is what is absorbed, CircuitConfig.fri_config is
-            // what fri_challenges reads): both copies are edited consistently
-            let ok = perturb_fri_config(&mut ti.common.fri_params.config, class, i);
-            perturb_fri_config(&mut ti.common.config.fri_config, class, i);
-            return ok;
+            // one logical parameter, stored twice: FriParams.config is the copy that is ABSORBED, CircuitConfig.fri_config
+            // is what fri_challenges reads for the number / range of query indices.  The judged perturbation edits the
+            // absorbed copy only (the consistent edit of both is reported under not_components).
+            return perturb_fri_config(&mut ti.common.fri_params.config, class, i);
         }
         "fri.hiding" => ti.common.fri_params.hiding = !ti.common.fri_params.hiding,
         "fri.degree_bits" => ti.common.fri_params.degree_bits += 1,
@@ -489,7 +503,8 @@ fn plonk_one<C: GenericConfig<D, F = F>>(case: &PlonkCase, hasher: &str, program
         ("config.num_challenges+1", Box::new(|t: &mut Ti<C>| t.common.config.num_challenges += 1) as Box<dyn Fn(&mut Ti<C>)>),
         ("config.fri_config.rate_bits+1 (unabsorbed copy only)", Box::new(|t: &mut Ti<C>| t.common.config.fri_config.rate_bits += 1)),
         ("config.fri_config.num_query_rounds+1 (unabsorbed copy only)", Box::new(|t: &mut Ti<C>| t.common.config.fri_config.num_query_rounds += 1)),
-        ("fri_params.config.rate_bits+1 (absorbed copy only)", Box::new(|t: &mut Ti<C>| t.common.fri_params.config.rate_bits += 1)),
+        ("rate_bits+1 in both copies", Box::new(|t: &mut Ti<C>| { t.common.fri_params.config.rate_bits += 1; t.common.config.fri_config.rate_bits += 1 })),
+        ("num_query_rounds+1 in both copies", Box::new(|t: &mut Ti<C>| { t.common.fri_params.config.num_query_rounds += 1; t.common.config.fri_config.num_query_rounds += 1 })),
         ("config.security_bits+1", Box::new(|t: &mut Ti<C>| t.common.config.security_bits += 1)),
         ("config.zero_knowledge flipped", Box::new(|t: &mut Ti<C>| t.common.config.zero_knowledge = !t.common.config.zero_knowledge)),
         ("num_public_inputs+1", Box::new(|t: &mut Ti<C>| t.common.num_public_inputs += 1)),
@@ -574,6 +589,82 @@ macro_rules! fib_stark {
 }
 fib_stark!(FibPi, 3, true);
 fib_stark!(FibNoPi, 0, false);
+// a fourth public input (a "tag") that occurs in NO constraint: only the observe of the public inputs binds it
+fib_stark!(FibTag, 4, true);
+
+/// starky's permutation / logUp example: columns 0 and 1 are permutations of each other (lookup argument),
+/// no other constraint, and ONE public input that occurs in no constraint.  Exposes the lookup challenges,
+/// the first challenges drawn after the statement and the trace cap.
+#[derive(Copy, Clone)]
+struct PermStark<F2: RichField + Extendable<D2>, const D2: usize> {
+    _p: PhantomData<F2>,
+}
+impl<F2: RichField + Extendable<D2>, const D2: usize> Stark<F2, D2> for PermStark<F2, D2> {
+    type EvaluationFrame<FE2, P, const D3: usize>
+        = StarkFrame<P, P::Scalar, 3, 1>
+    where
+        FE2: FieldExtension<D3, BaseField = F2>,
+        P: PackedField<Scalar = FE2>;
+    type EvaluationFrameTarget = StarkFrame<ExtensionTarget<D2>, ExtensionTarget<D2>, 3, 1>;
+    fn constraint_degree(&self) -> usize {
+        0
+    }
+    fn lookups(&self) -> Vec<starky::lookup::Lookup<F2>> {
+        vec![starky::lookup::Lookup {
+            columns: vec![starky::lookup::Column::single(0)],
+            table_column: starky::lookup::Column::single(1),
+            frequencies_column: starky::lookup::Column::single(2),
+            filter_columns: vec![Default::default()],
+        }]
+    }
+    fn eval_packed_generic<FE2, P, const D3: usize>(&self, _v: &Self::EvaluationFrame<FE2, P, D3>, _y: &mut ConstraintConsumer<P>)
+    where
+        FE2: FieldExtension<D3, BaseField = F2>,
+        P: PackedField<Scalar = FE2>,
+    {
+    }
+    fn eval_ext_circuit(&self, _b: &mut CircuitBuilder<F2, D2>, _v: &Self::EvaluationFrameTarget, _y: &mut RecursiveConstraintConsumer<F2, D2>) {}
+}
+fn perm_trace(rows: usize, x0: F) -> Vec<PolynomialValues<F>> {
+    let mut c0 = vec![];
+    let mut c1 = vec![];
+    for i in 0..rows {
+        c0.push(x0 + F::from_canonical_usize(i));
+        c1.push(x0 + F::from_canonical_usize(i + 1));
+    }
+    c1[rows - 1] = x0;
+    vec![PolynomialValues::new(c0), PolynomialValues::new(c1), PolynomialValues::new(vec![F::ONE; rows])]
+}
+
+#[derive(Clone, Copy, PartialEq, Eq, Debug)]
+enum Kind {
+    FibPi,
+    FibNoPi,
+    FibTag,
+    Perm,
+}
+impl Kind {
+    /// public inputs that occur in no constraint (trailing)
+    fn npifree(self) -> usize {
+        match self {
+            Kind::FibTag | Kind::Perm => 1,
+            _ => 0,
+        }
+    }
+    fn constraint_degree(self) -> usize {
+        if self == Kind::Perm { 0 } else { 2 }
+    }
+}
+macro_rules! with_stark {
+    ($kind:expr, $s:ident, $body:expr) => {
+        match $kind {
+            Kind::FibPi => { let $s = FibPi::<F, D> { _p: PhantomData }; $body }
+            Kind::FibNoPi => { let $s = FibNoPi::<F, D> { _p: PhantomData }; $body }
+            Kind::FibTag => { let $s = FibTag::<F, D> { _p: PhantomData }; $body }
+            Kind::Perm => { let $s = PermStark::<F, D> { _p: PhantomData }; $body }
+        }
+    };
+}
 
 fn fib_trace(rows: usize, x0: F, x1: F) -> (Vec<PolynomialValues<F>>, F) {
     let mut c0 = Vec::with_capacity(rows);
@@ -594,7 +685,7 @@ fn fib_trace(rows: usize, x0: F, x1: F) -> (Vec<PolynomialValues<F>>, F) {
 struct Si {
     config: StarkConfig,
     proof: StarkProofWithPublicInputs<F, PC, D>,
-    with_pi: bool,
+    kind: Kind,
     /// variable-degree recursion mode: the transcript is padded to the shape of this verifier circuit
     vparams: Option<plonky2::fri::FriParams>,
 }
@@ -602,11 +693,8 @@ struct Si {
 fn stark_challenges(si: &Si) -> Result<Chal, String> {
     let r = guarded(|| {
         let mut ch = Challenger::<F, <PC as GenericConfig<D>>::Hasher>::new();
-        if si.with_pi {
-            si.proof.get_challenges(&FibPi::<F, D> { _p: PhantomData }, &mut ch, None, None, false, &si.config, si.vparams.clone())
-        } else {
-            si.proof.get_challenges(&FibNoPi::<F, D> { _p: PhantomData }, &mut ch, None, None, false, &si.config, si.vparams.clone())
-        }
+        // the library's own StarkProofWithPublicInputs::get_challenges (observes the public inputs itself)
+        with_stark!(si.kind, st, si.proof.get_challenges(&st, &mut ch, None, None, false, &si.config, si.vparams.clone()))
     });
     let c = r.map_err(|p| format!("panic: {p}"))?;
     let mut out = Chal::new();
@@ -629,9 +717,12 @@ fn stark_classes(si: &Si) -> Vec<(String, usize)> {
         ("fri.num_query_rounds".into(), 1),
         ("trace_cap".into(), p.trace_cap.0.len() * 4),
         ("degree_bits".into(), 1),
+        ("auxiliary_polys_cap".into(), p.auxiliary_polys_cap.as_ref().map_or(0, |c| c.0.len() * 4)),
         ("quotient_polys_cap".into(), p.quotient_polys_cap.as_ref().map_or(0, |c| c.0.len() * 4)),
         ("openings.local_values".into(), p.openings.local_values.len() * D),
         ("openings.next_values".into(), p.openings.next_values.len() * D),
+        ("openings.auxiliary_polys".into(), p.openings.auxiliary_polys.as_ref().map_or(0, |q| q.len() * D)),
+        ("openings.auxiliary_polys_next".into(), p.openings.auxiliary_polys_next.as_ref().map_or(0, |q| q.len() * D)),
         ("openings.quotient_polys".into(), p.openings.quotient_polys.as_ref().map_or(0, |q| q.len() * D)),
     ];
     for (l, c) in p.opening_proof.commit_phase_merkle_caps.iter().enumerate() {
@@ -663,6 +754,18 @@ fn stark_perturb(si: &mut Si, class: &str, i: usize) -> bool {
             Some(c) => perturb_cap(c, i),
             None => return false,
         },
+        "auxiliary_polys_cap" => match p.auxiliary_polys_cap.as_mut() {
+            Some(c) => perturb_cap(c, i),
+            None => return false,
+        },
+        "openings.auxiliary_polys" => match p.openings.auxiliary_polys.as_mut() {
+            Some(q) => bump_ext(&mut q[i / D], i % D),
+            None => return false,
+        },
+        "openings.auxiliary_polys_next" => match p.openings.auxiliary_polys_next.as_mut() {
+            Some(q) => bump_ext(&mut q[i / D], i % D),
+            None => return false,
+        },
         "openings.local_values" => bump_ext(&mut p.openings.local_values[i / D], i % D),
         "openings.next_values" => bump_ext(&mut p.openings.next_values[i / D], i % D),
         "openings.quotient_polys" => match p.openings.quotient_polys.as_mut() {
@@ -690,27 +793,37 @@ struct StarkCase {
     name: &'static str,
     config: StarkConfig,
     log_rows: usize,
-    with_pi: bool,
+    kind: Kind,
     /// degree bits of the verifier circuit the proof is padded for (variable-degree mode)
     verifier_degree_bits: Option<usize>,
 }
 fn stark_cases(thorough: bool) -> Vec<StarkCase> {
     let fast = StarkConfig::standard_fast_config();
     let mut v = vec![
-        StarkCase { name: "fib-pi/fast", config: fast.clone(), log_rows: 8, with_pi: true, verifier_degree_bits: None },
-        StarkCase { name: "fib-nopi/fast", config: fast.clone(), log_rows: 7, with_pi: false, verifier_degree_bits: None },
+        StarkCase { name: "fib-pi/fast", config: fast.clone(), log_rows: 8, kind: Kind::FibPi, verifier_degree_bits: None },
+        StarkCase { name: "fib-nopi/fast", config: fast.clone(), log_rows: 7, kind: Kind::FibNoPi, verifier_degree_bits: None },
+        // public inputs outside every constraint; the logUp STARK also exposes the lookup challenges
+        StarkCase { name: "fib-tag/fast", config: fast.clone(), log_rows: 6, kind: Kind::FibTag, verifier_degree_bits: None },
+        StarkCase { name: "perm-logup/fast", config: fast.clone(), log_rows: 6, kind: Kind::Perm, verifier_degree_bits: None },
+        StarkCase {
+            name: "perm-logup/nc1",
+            config: StarkConfig::new(40, 1, FriConfig { rate_bits: 2, cap_height: 1, proof_of_work_bits: 5, reduction_strategy: FriReductionStrategy::ConstantArityBits(1, 3), num_query_rounds: 18 }),
+            log_rows: 6,
+            kind: Kind::Perm,
+            verifier_degree_bits: None,
+        },
         StarkCase {
             name: "fib-pi/nc1-fixed",
             config: StarkConfig::new(40, 1, FriConfig { rate_bits: 2, cap_height: 1, proof_of_work_bits: 5, reduction_strategy: FriReductionStrategy::Fixed(vec![1, 2]), num_query_rounds: 18 }),
             log_rows: 7,
-            with_pi: true,
+            kind: Kind::FibPi,
             verifier_degree_bits: None,
         },
         StarkCase {
             name: "fib-nopi/nolayers",
             config: StarkConfig::new(30, 3, FriConfig { rate_bits: 3, cap_height: 0, proof_of_work_bits: 3, reduction_strategy: FriReductionStrategy::Fixed(vec![]), num_query_rounds: 10 }),
             log_rows: 5,
-            with_pi: false,
+            kind: Kind::FibNoPi,
             verifier_degree_bits: None,
         },
     ];
@@ -718,21 +831,21 @@ fn stark_cases(thorough: bool) -> Vec<StarkCase> {
     // degree 6 under a degree-8 verifier lacks one commit layer (zero-cap padding), degree 7 has a shorter final
     // polynomial (zero-coefficient padding)
     let vd = StarkConfig::new(80, 2, FriConfig { rate_bits: 1, cap_height: 4, proof_of_work_bits: 16, reduction_strategy: FriReductionStrategy::ConstantArityBits(2, 3), num_query_rounds: 84 });
-    v.push(StarkCase { name: "fib-pi/vardeg-6of8", config: vd.clone(), log_rows: 6, with_pi: true, verifier_degree_bits: Some(8) });
-    v.push(StarkCase { name: "fib-nopi/vardeg-7of8", config: vd, log_rows: 7, with_pi: false, verifier_degree_bits: Some(8) });
+    v.push(StarkCase { name: "fib-pi/vardeg-6of8", config: vd.clone(), log_rows: 6, kind: Kind::FibPi, verifier_degree_bits: Some(8) });
+    v.push(StarkCase { name: "fib-nopi/vardeg-7of8", config: vd, log_rows: 7, kind: Kind::FibNoPi, verifier_degree_bits: Some(8) });
     if thorough {
         v.push(StarkCase {
             name: "fib-pi/minsize",
             config: StarkConfig::new(60, 2, FriConfig { rate_bits: 2, cap_height: 3, proof_of_work_bits: 10, reduction_strategy: FriReductionStrategy::MinSize(Some(3)), num_query_rounds: 25 }),
             log_rows: 10,
-            with_pi: true,
+            kind: Kind::FibPi,
             verifier_degree_bits: None,
         });
         v.push(StarkCase {
             name: "fib-nopi/cab",
             config: StarkConfig::new(50, 1, FriConfig { rate_bits: 1, cap_height: 2, proof_of_work_bits: 8, reduction_strategy: FriReductionStrategy::ConstantArityBits(2, 2), num_query_rounds: 42 }),
             log_rows: 9,
-            with_pi: false,
+            kind: Kind::FibNoPi,
             verifier_degree_bits: None,
         });
     }
@@ -741,23 +854,26 @@ fn stark_cases(thorough: bool) -> Vec<StarkCase> {
 
 fn stark_one(case: &StarkCase, only_cfg: bool, salt: u64) -> anyhow::Result<Value> {
     let rows = 1usize << case.log_rows;
-    let (x0, x1) = if case.with_pi { (fc(3 + salt), fc(5)) } else { (F::ZERO, F::ONE) };
-    let (trace, last) = fib_trace(rows, x0, x1);
     let mut timing = TimingTree::default();
     let vparams = case.verifier_degree_bits.map(|d| case.config.fri_params(d));
-    let proof = if case.with_pi {
-        let s = FibPi::<F, D> { _p: PhantomData };
-        let pis = [x0, x1, last];
-        let p = starky::prover::prove::<F, PC, _, D>(s, &case.config, trace, &pis, vparams.clone(), &mut timing)?;
-        starky::verifier::verify_stark_proof(s, p.clone(), &case.config, vparams.clone())?;
-        p
-    } else {
-        let s = FibNoPi::<F, D> { _p: PhantomData };
-        let p = starky::prover::prove::<F, PC, _, D>(s, &case.config, trace, &[], vparams.clone(), &mut timing)?;
-        starky::verifier::verify_stark_proof(s, p.clone(), &case.config, vparams.clone())?;
-        p
+    let (trace, pis): (Vec<PolynomialValues<F>>, Vec<F>) = match case.kind {
+        Kind::FibPi => {
+            let (t, last) = fib_trace(rows, fc(3 + salt), fc(5));
+            (t, vec![fc(3 + salt), fc(5), last])
+        }
+        Kind::FibTag => {
+            let (t, last) = fib_trace(rows, fc(3 + salt), fc(5));
+            (t, vec![fc(3 + salt), fc(5), last, fc(1000 + salt)])
+        }
+        Kind::FibNoPi => (fib_trace(rows, F::ZERO, F::ONE).0, vec![]),
+        Kind::Perm => (perm_trace(rows, fc(7 + salt)), vec![fc(1000 + salt)]),
     };
-    let si = Si { config: case.config.clone(), proof, with_pi: case.with_pi, vparams: vparams.clone() };
+    let proof = with_stark!(case.kind, st, {
+        let p = starky::prover::prove::<F, PC, _, D>(st, &case.config, trace, &pis, vparams.clone(), &mut timing)?;
+        starky::verifier::verify_stark_proof(st, p.clone(), &case.config, vparams.clone())?;
+        p
+    });
+    let si = Si { config: case.config.clone(), proof, kind: case.kind, vparams: vparams.clone() };
     let p = &si.proof.proof;
     let fc_ = &si.config.fri_config;
     let degree_bits = p.recover_degree_bits(&si.config);
@@ -766,13 +882,18 @@ fn stark_one(case: &StarkCase, only_cfg: bool, salt: u64) -> anyhow::Result<Valu
         FriReductionStrategy::Fixed(v) => v.len(),
         _ => p.opening_proof.commit_phase_merkle_caps.len(),
     };
+    let naux = p.openings.auxiliary_polys.as_ref().map_or(0, |q| q.len());
+    // get_dummy_polys: number of simulating zetas
+    let pow_degree = std::cmp::max(2, case.kind.constraint_degree() + 1);
+    let nep = std::cmp::max(1, 50 / plonky2::util::log2_ceil(pow_degree) - 1);
+    let nsimz = (2 * p.openings.local_values.len() + 2 * naux).div_ceil(nep);
     let cfg = json!({
         "nc": si.config.num_challenges, "npi": si.proof.public_inputs.len(), "capn": p.trace_cap.0.len(),
         "layers": p.opening_proof.commit_phase_merkle_caps.len(), "strat": strat_name(strat), "narity": narity,
         "q": fc_.num_query_rounds, "nfinal": p.opening_proof.final_poly.coeffs.len(),
-        "ncols": p.openings.local_values.len(), "naux": 0,
+        "ncols": p.openings.local_values.len(), "naux": naux,
         "nquot": p.openings.quotient_polys.as_ref().map_or(0, |q| q.len()),
-        "lookups": false, "nsimz": 1,
+        "lookups": p.auxiliary_polys_cap.is_some(), "nsimz": nsimz, "npifree": case.kind.npifree(),
         "padcaps": vparams.as_ref().map_or(0, |v| v.reduction_arity_bits.len() - p.opening_proof.commit_phase_merkle_caps.len()),
         "padfinal": vparams.as_ref().map_or(0, |v| plonky2::fri::prover::final_poly_coeff_len(v.degree_bits, &v.reduction_arity_bits)
                                                    - p.opening_proof.final_poly.coeffs.len()),
